@@ -85,11 +85,29 @@ type vc16Op struct {
 	Nested *vc16Upload
 }
 
-// vc16Upload is the script of one upload attempt.
+// Context modes of one Refresh call.
+const (
+	vc16CtxLive      = iota // context stays live
+	vc16CtxCancelled        // already cancelled when Refresh is called
+	vc16CtxExpired          // already past its deadline when Refresh is called
+	vc16CtxCancelMid        // cancelled by the uploader while the upload is in flight
+)
+
+// vc16Upload is the script of one Refresh and its upload attempt.  With a
+// context that is already done the uploader, if it is called at all, returns
+// the context's error when Fail is set and otherwise ignores the context and
+// succeeds (both are legitimate uploaders).  With vc16CtxCancelMid the
+// uploader cancels the context after the During operations and returns its
+// error.
 type vc16Upload struct {
 	Fail   bool
+	Ctx    int
 	During []vc16Op
+
+	cancel context.CancelFunc
 }
+
+func (u *vc16Upload) fails() bool { return u.Fail || u.Ctx == vc16CtxCancelMid }
 
 // vc16Round is: some records, then one Refresh.
 type vc16Round struct {
@@ -102,6 +120,10 @@ func vc16UploadKey(sb *strings.Builder, u *vc16Upload) {
 		sb.WriteByte('F')
 	} else {
 		sb.WriteByte('S')
+	}
+
+	if u.Ctx != vc16CtxLive {
+		sb.WriteByte(byte('0' + u.Ctx))
 	}
 
 	if len(u.During) == 0 {
@@ -423,8 +445,47 @@ func (x *vc16Run) refresh(u *vc16Upload) {
 		x.classes["overlapping-refresh"] = true
 	}
 
+	ctx := x.ctx
+	ctxTxt := ""
+	switch u.Ctx {
+	case vc16CtxCancelled:
+		var cancel context.CancelFunc
+		ctx, cancel = context.WithCancel(ctx)
+		cancel()
+		ctxTxt = " [ctx already cancelled]"
+	case vc16CtxExpired:
+		var cancel context.CancelFunc
+		ctx, cancel = context.WithDeadline(ctx, vc16Base)
+		defer cancel()
+		ctxTxt = " [ctx already past its deadline]"
+	case vc16CtxCancelMid:
+		ctx, u.cancel = context.WithCancel(ctx)
+		defer u.cancel()
+		ctxTxt = " [ctx cancelled by the uploader in flight]"
+	}
+
+	if u.Ctx == vc16CtxCancelled || u.Ctx == vc16CtxExpired {
+		if ctx.Err() == nil {
+			x.fatalf("harness: context is not done")
+		}
+
+		nonEmpty := false
+		for _, rec := range x.pending() {
+			nonEmpty = nonEmpty || rec.Queries > 0
+		}
+
+		if nonEmpty {
+			x.classes["refresh-with-done-context-nonempty"] = true
+			if u.Ctx == vc16CtxExpired {
+				x.classes["refresh-with-expired-context-nonempty"] = true
+			} else {
+				x.classes["refresh-with-cancelled-context-nonempty"] = true
+			}
+		}
+	}
+
 	x.next = u
-	err := x.r.Refresh(x.ctx)
+	err := x.r.Refresh(ctx)
 	called := x.next == nil
 	x.next = nil
 
@@ -438,12 +499,12 @@ func (x *vc16Run) refresh(u *vc16Upload) {
 		x.classes["refresh-without-upload-call"] = true
 	}
 
-	x.events = append(x.events, vc16Event{kind: 'R', depth: depth, text: txt})
+	x.events = append(x.events, vc16Event{kind: 'R', depth: depth, text: txt + ctxTxt})
 	x.checkInv("after Refresh")
 }
 
 // Upload implements the Uploader interface for *vc16Run.
-func (x *vc16Run) Upload(_ context.Context, records Records) (err error) {
+func (x *vc16Run) Upload(ctx context.Context, records Records) (err error) {
 	u := x.next
 	x.next = nil
 	if u == nil {
@@ -455,7 +516,7 @@ func (x *vc16Run) Upload(_ context.Context, records Records) (err error) {
 
 	snap := vc16Copy(records)
 	depth := len(x.inflight)
-	x.events = append(x.events, vc16Event{kind: 'b', depth: depth, fail: u.Fail, snap: snap})
+	x.events = append(x.events, vc16Event{kind: 'b', depth: depth, fail: u.fails(), snap: snap})
 
 	total := int64(0)
 	for d, rec := range snap {
@@ -473,7 +534,7 @@ func (x *vc16Run) Upload(_ context.Context, records Records) (err error) {
 		x.classes["empty-upload"] = true
 	}
 
-	fl := &vc16Flight{snap: snap, fail: u.Fail, recDuring: map[agd.DeviceID]bool{}}
+	fl := &vc16Flight{snap: snap, fail: u.fails(), recDuring: map[agd.DeviceID]bool{}}
 	x.inflight = append(x.inflight, fl)
 	x.checkInv("upload entry")
 
@@ -486,14 +547,21 @@ func (x *vc16Run) Upload(_ context.Context, records Records) (err error) {
 	}
 
 	x.inflight = x.inflight[:len(x.inflight)-1]
-	x.events = append(x.events, vc16Event{kind: 'e', depth: depth, fail: u.Fail})
+	x.events = append(x.events, vc16Event{kind: 'e', depth: depth, fail: u.fails()})
 
 	if !vc16SameSnap(records, snap) {
 		x.fatalf("the records handed to the uploader changed while the upload was in flight: at entry %s, at return %s",
 			vc16MapStr(snap), vc16MapStr(vc16Copy(records)))
 	}
 
-	if u.Fail {
+	if u.Ctx == vc16CtxCancelMid {
+		u.cancel()
+		if total > 0 {
+			x.classes["cancelled-in-flight-nonempty"] = true
+		}
+	}
+
+	if u.fails() {
 		if total > 0 {
 			x.failStreak++
 			x.maxStreak = max(x.maxStreak, x.failStreak)
@@ -524,6 +592,10 @@ func (x *vc16Run) Upload(_ context.Context, records Records) (err error) {
 
 		if nInto > 0 && nRestore > 0 {
 			x.classes["remerge-mixed"] = true
+		}
+
+		if cerr := ctx.Err(); cerr != nil {
+			return fmt.Errorf("vc16: upload: %w", cerr)
 		}
 
 		return vc16ErrUpload
@@ -607,6 +679,10 @@ func vc16DrawRec(t *rapid.T, nDev int) (rc vc16Rec) {
 
 func vc16DrawUpload(t *rapid.T, nDev int, fail bool, depth int) (u *vc16Upload) {
 	u = &vc16Upload{Fail: fail}
+	// 0..11: 7 in 12 live; rapid biases towards 0, so the rarer modes are
+	// the low numbers.
+	u.Ctx = []int{vc16CtxCancelled, vc16CtxExpired, vc16CtxCancelMid, vc16CtxCancelled, vc16CtxCancelMid,
+		vc16CtxLive, vc16CtxLive, vc16CtxLive, vc16CtxLive, vc16CtxLive, vc16CtxLive, vc16CtxLive}[rapid.IntRange(0, 11).Draw(t, "ctxMode")]
 	n := rapid.SampledFrom([]int{0, 0, 1, 1, 2, 3}).Draw(t, "nDuring")
 	for i := 0; i < n; i++ {
 		if depth == 0 && rapid.IntRange(0, 39).Draw(t, "nested") == 23 {
@@ -624,9 +700,10 @@ func vc16DrawUpload(t *rapid.T, nDev int, fail bool, depth int) (u *vc16Upload) 
 
 func TestVerifC16History(t *testing.T) {
 	st := vstat.New("C16", "billstat.history",
-		"rapid histories: S/F pattern (all 126 patterns of length<=6 drawn by index, or random of length 7..10) x per round 0..3 records before and 0..3 operations (record | rare overlapping Refresh) performed re-entrantly inside the scripted Upload, 1..3 devices; conservation + last-writer metadata checked after every real call; non-trivial = a failed upload holding device d, then a Record(d) (during or after it), then a successful upload holding d; distinct by (devices, outcomes, placement)",
+		"rapid histories: S/F pattern (all 126 patterns of length<=6 drawn by index, or random of length 7..10) x per Refresh a context mode (live | already cancelled | already past its deadline | cancelled by the uploader in flight) x per round 0..3 records before and 0..3 operations (record | rare overlapping Refresh) performed re-entrantly inside the scripted Upload, 1..3 devices; conservation + last-writer metadata checked after every real call; non-trivial = a failed upload holding device d, then a Record(d) (during or after it), then a successful upload holding d; distinct by (devices, outcomes, placement)",
 		"fail-then-record-then-success", "record-during-failed-upload", "remerge-into-newer-record",
-		"remerge-restores-record", "remerge-mixed", "fail-streak>=2", "record-during-successful-upload", "overlapping-refresh")
+		"remerge-restores-record", "remerge-mixed", "fail-streak>=2", "record-during-successful-upload", "overlapping-refresh",
+		"refresh-with-done-context-nonempty", "refresh-with-cancelled-context-nonempty", "refresh-with-expired-context-nonempty", "cancelled-in-flight-nonempty")
 	st.Finish(t)
 
 	seenPat := map[int]struct{}{}
@@ -685,6 +762,7 @@ func TestVerifC16History(t *testing.T) {
 
 type vc16Slot struct {
 	fail   bool
+	ctx    int
 	pre    []int
 	during []int
 }
@@ -728,7 +806,7 @@ func vc16Enumerate(t *testing.T, st *vstat.Stats, slots []vc16Slot, l int) {
 				k++
 			}
 
-			rounds[i].Up = &vc16Upload{Fail: s.fail}
+			rounds[i].Up = &vc16Upload{Fail: s.fail, Ctx: s.ctx}
 			for _, d := range s.during {
 				rc := vc16DetRec(d, k)
 				k++
@@ -768,9 +846,10 @@ func vc16Next(idx []int, base int) (ok bool) {
 
 func TestVerifC16Patterns(t *testing.T) {
 	st := vstat.New("C16", "billstat.patterns",
-		"bounded-exhaustive: every S/F pattern of length<=6; per round every placement from a fixed set. Length<=3 (thorough: <=5): records before in {none,a,b,ab} x records during the upload in {none,a,b} (24 slots/round, full product). Length 4 (thorough: 6): before in {none,a,ab} x during in {none,a} (12 slots/round). Quick only, lengths 5..6: {a before | a during | ab before + b during} (6 slots/round). Non-trivial as in billstat.history",
+		"bounded-exhaustive: every S/F pattern of length<=6; per round every placement from a fixed set. Length<=3 (thorough: <=5): records before in {none,a,b,ab} x records during the upload in {none,a,b} (24 slots/round, full product). Length 4 (thorough: 6): before in {none,a,ab} x during in {none,a} (12 slots/round). Quick only, lengths 5..6: {a before | a during | ab before + b during} (6 slots/round). Context faults (Refresh with an already-cancelled or already-expired context, or a context the uploader cancels in flight) are added as 18 further slots/round for length<=3 (thorough <=4) and as 2 slots/round for lengths 4..5 in quick. Non-trivial as in billstat.history",
 		"fail-then-record-then-success", "record-during-failed-upload", "remerge-into-newer-record",
-		"remerge-restores-record", "remerge-mixed", "fail-streak>=3", "patlen-6")
+		"remerge-restores-record", "remerge-mixed", "fail-streak>=3", "patlen-6",
+		"refresh-with-done-context-nonempty", "refresh-with-cancelled-context-nonempty", "refresh-with-expired-context-nonempty", "cancelled-in-flight-nonempty")
 	st.Finish(t)
 
 	// Slot sets: full (24 per round), mid (12 per round), small (6 per round).
@@ -785,10 +864,32 @@ func TestVerifC16Patterns(t *testing.T) {
 		)
 	}
 
-	// quick: full<=3, mid 4, small 5..6; thorough: full<=5, mid 6.
-	sets := [][]vc16Slot{1: full, 2: full, 3: full, 4: mid, 5: small, 6: small}
+	// Context faults: Refresh with a context that is already cancelled (the
+	// uploader, if called, returns its error), already expired (the uploader,
+	// if called, ignores it and succeeds), or that the uploader cancels in
+	// flight; each with the mid placements (18 slots), or two slots only.
+	var ctxAll []vc16Slot
+	for _, m := range mid[:len(mid)/2] {
+		ctxAll = append(ctxAll,
+			vc16Slot{fail: true, ctx: vc16CtxCancelled, pre: m.pre, during: m.during},
+			vc16Slot{fail: false, ctx: vc16CtxExpired, pre: m.pre, during: m.during},
+			vc16Slot{fail: true, ctx: vc16CtxCancelMid, pre: m.pre, during: m.during},
+		)
+	}
+
+	ctxTwo := []vc16Slot{
+		{fail: true, ctx: vc16CtxCancelled, pre: []int{0}},
+		{fail: true, ctx: vc16CtxCancelMid, pre: []int{0}, during: []int{0}},
+	}
+
+	join := func(a, b []vc16Slot) (c []vc16Slot) { return append(append(c, a...), b...) }
+	fullCtx, midCtx, smallCtx := join(full, ctxAll), join(mid, ctxTwo), join(small, ctxTwo)
+
+	// quick: full+ctx (42) <=3, mid+2 (14) 4, small+2 (8) 5, small (6) 6;
+	// thorough: full+ctx <=4, full 5, mid 6.
+	sets := [][]vc16Slot{1: fullCtx, 2: fullCtx, 3: fullCtx, 4: midCtx, 5: smallCtx, 6: small}
 	if vstat.Thorough() {
-		sets = [][]vc16Slot{1: full, 2: full, 3: full, 4: full, 5: full, 6: mid}
+		sets = [][]vc16Slot{1: fullCtx, 2: fullCtx, 3: fullCtx, 4: fullCtx, 5: full, 6: mid}
 	}
 
 	for l := 1; l <= 6; l++ {
